@@ -112,7 +112,11 @@ func main() {
 		realFiles[k] = real2[k]
 		rel, _ := filepath.Rel(*dir, filepath.Dir(k))
 		if !strings.Contains(rel, "internal/zzsym") {
-			pkgSet["./"+rel] = true
+			if rel == "." {
+				pkgSet["."] = true
+			} else {
+				pkgSet["./"+rel] = true
+			}
 		}
 	}
 	if len(pkgs) == 0 {
